@@ -11,11 +11,27 @@ BASE = "quimb.linalg.base_linalg"
 SELECTION_OPTS = ("k", "B", "which", "sigma", "isherm", "return_vecs", "sort", "v0", "tol", "ncv")
 
 
-def _settings_keys(f):
+def _settings_name(f):
+    starred = {kw.value.id for c in ast.walk(f.node) if isinstance(c, ast.Call) for kw in c.keywords if kw.arg is None and isinstance(kw.value, ast.Name)}
+    best = (None, -1)
     for n in ast.walk(f.node):
-        if isinstance(n, ast.Assign) and isinstance(n.targets[0], ast.Name) and n.targets[0].id == "settings" and isinstance(n.value, ast.Dict):
-            return {const_value(k, None): v for k, v in zip(n.value.keys, n.value.values)}
-    return None
+        if isinstance(n, ast.Assign) and isinstance(n.targets[0], ast.Name) and n.targets[0].id in starred and isinstance(n.value, ast.Dict) \
+                and all(isinstance(k, ast.Constant) for k in n.value.keys) and len(n.value.keys) > best[1]:
+            best = (n.targets[0].id, len(n.value.keys))
+    return best[0]
+
+
+def _settings_keys(f):
+    """the dict literal bound to the local that the dispatcher **-expands into the backend call (whatever its name)"""
+    starred = {kw.value.id for c in ast.walk(f.node) if isinstance(c, ast.Call) for kw in c.keywords if kw.arg is None and isinstance(kw.value, ast.Name)}
+    best = None
+    for n in ast.walk(f.node):
+        if isinstance(n, ast.Assign) and isinstance(n.targets[0], ast.Name) and n.targets[0].id in starred and isinstance(n.value, ast.Dict) \
+                and all(isinstance(k, ast.Constant) for k in n.value.keys):
+            d = {const_value(k, None): v for k, v in zip(n.value.keys, n.value.values)}
+            if best is None or len(d) > len(best):
+                best = d
+    return best
 
 
 def rule_backend_use_or_reject(ctx):
@@ -40,7 +56,7 @@ def rule_backend_use_or_reject(ctx):
             else:
                 r.ok(f"{dispname}[{k}]", nontrivial=False)
         # call sites of the registry and the fallback pass **settings
-        calls = [c for c in ast.walk(disp.node) if isinstance(c, ast.Call) and any(kw.arg is None and src_of(kw.value) == "settings" for kw in c.keywords)]
+        calls = [c for c in ast.walk(disp.node) if isinstance(c, ast.Call) and any(kw.arg is None and isinstance(kw.value, ast.Name) and kw.value.id == _settings_name(disp) for kw in c.keywords)]
         if len(calls) >= 1:
             r.ok(f"{dispname}[**settings]", sample={"dispatcher": dispname, "calls with **settings": len(calls)})
         else:
